@@ -117,7 +117,7 @@ pub fn run_listing(listing: usize, n: usize, limits: &[Option<u32>]) -> Vec<Case
                 }
             } else {
                 // by-spender listing.  Every third owner's allowance is drawn down to exactly zero (the record stays),
-                // and for odd n the token is a pre-0.14 one migrated just before the walk (the by-spender index is rebuilt)
+                // and for odd n (and the large sizes) the token is a pre-0.14 one migrated just before the walk (the by-spender index is rebuilt)
                 let spender = accts[0].clone();
                 let ow = addrs(&app, "owner", n);
                 let creator = app.api().addr_make("creator");
@@ -131,15 +131,25 @@ pub fn run_listing(listing: usize, n: usize, limits: &[Option<u32>]) -> Vec<Case
                     marketing: None,
                 };
                 let tok = app.instantiate_contract(lcode, creator.clone(), &msg, &[], "tok2", Some(creator.to_string())).unwrap();
+                // every owner grants two spenders (the walked one is the later of the two in key order), and the first owner in
+                // key order a third one: an owner's entries then straddle every even position of the owner-keyed table
+                let other = app.api().addr_make("other-spender");
+                let third = app.api().addr_make("third-spender");
+                let (spender, other) = if spender.as_str() > other.as_str() { (spender, other) } else { (other, spender) };
+                let first_owner = ow.iter().min_by(|a, b| a.as_str().cmp(b.as_str())).cloned();
                 for o in &ow {
                     app.execute_contract(o.clone(), tok.clone(), &Cw20ExecuteMsg::IncreaseAllowance { spender: spender.to_string(), amount: Uint128::new(3), expires: None }, &[]).unwrap();
+                    app.execute_contract(o.clone(), tok.clone(), &Cw20ExecuteMsg::IncreaseAllowance { spender: other.to_string(), amount: Uint128::new(2), expires: None }, &[]).unwrap();
+                    if Some(o) == first_owner.as_ref() {
+                        app.execute_contract(o.clone(), tok.clone(), &Cw20ExecuteMsg::IncreaseAllowance { spender: third.to_string(), amount: Uint128::new(1), expires: None }, &[]).unwrap();
+                    }
                 }
                 for (i, o) in ow.iter().enumerate() {
                     if i % 3 == 0 {
                         app.execute_contract(spender.clone(), tok.clone(), &Cw20ExecuteMsg::TransferFrom { owner: o.to_string(), recipient: spender.to_string(), amount: Uint128::new(3) }, &[]).unwrap();
                     }
                 }
-                if n % 2 == 1 {
+                if n % 2 == 1 || n >= 60 {
                     app.wasm_sudo(tok.clone(), &crate::cw20::SudoMsg::Legacy {}).unwrap();
                     app.migrate_contract(creator.clone(), tok.clone(), &cw20_base::msg::MigrateMsg {}, lcode).unwrap();
                 }
